@@ -433,8 +433,13 @@ class RetryExecutor(CanCustomizeBind, Executor):
         assert found_job, "BUG: no job associated with delegate %s" % delegate_future
 
         if delegate_future.cancelled():
-            # nothing to do, retrying on cancel is not allowed
+            # Retrying on cancel is not allowed.  The job is finished: drop it,
+            # and make sure the future ends up cancelled too (it already is if
+            # the cancel came through it; it is not if the delegate future was
+            # cancelled by someone else).
             self._log.debug("Delegate was cancelled: %s", delegate_future)
+            self._pop_job(found_job)
+            found_job.future._me_delegate_cancelled()
             return
 
         (should_retry, sleep_time) = eval_policy(found_job, self._log)
